@@ -136,18 +136,47 @@ func TestPropConcurrent(t *testing.T) {
 		// requests still in flight when the store stops may never be answered (their
 		// messages are dropped with the subscription): give up on them shortly after
 		// the stop began instead of waiting for the full time-out
+		// "Unanswered" must not be a matter of how slow the machine is: the store
+		// serves one request after the other, so while it keeps answering anybody
+		// (lastProgress) a waiting request is merely queued behind others. A request
+		// counts as unanswered once the store has answered nobody for a whole
+		// request time-out.
+		var lastProgress atomic.Int64
+		lastProgress.Store(time.Now().UnixNano())
+		progress := func() { lastProgress.Store(time.Now().UnixNano()) }
 		request := func(nc *nats.Conn, subj string, payload []byte) (*nats.Msg, error) {
-			ctx, cancel := context.WithTimeout(context.Background(), fix.ReqTimeout)
-			defer cancel()
-			go func() {
-				select {
-				case <-stopping:
-					time.Sleep(300 * time.Millisecond)
-					cancel()
-				case <-ctx.Done():
+			inbox := nc.NewRespInbox()
+			sub, err := nc.SubscribeSync(inbox)
+			if err != nil {
+				return nil, err
+			}
+			defer sub.Unsubscribe()
+			if err := nc.PublishRequest(subj, inbox, payload); err != nil {
+				return nil, err
+			}
+			start := time.Now()
+			var stopSeen time.Time
+			for {
+				m, err := sub.NextMsg(100 * time.Millisecond)
+				if err == nil {
+					progress()
+					return m, nil
 				}
-			}()
-			return nc.RequestWithContext(ctx, subj, payload)
+				if err != nats.ErrTimeout {
+					return nil, err
+				}
+				if isStopping() {
+					if stopSeen.IsZero() {
+						stopSeen = time.Now()
+					} else if time.Since(stopSeen) > 300*time.Millisecond {
+						return nil, context.Canceled
+					}
+				}
+				idle := time.Since(time.Unix(0, lastProgress.Load()))
+				if time.Since(start) > fix.ReqTimeout && idle > fix.ReqTimeout {
+					return nil, fmt.Errorf("no reply within %v, and the store answered nobody during the last %v", time.Since(start).Round(time.Second), idle.Round(time.Second))
+				}
+			}
 		}
 		write := func(nc *nats.Conn, subj string, pts data.Points) (string, error) {
 			b, err := pts.ToPb()
@@ -348,6 +377,7 @@ func TestPropConcurrent(t *testing.T) {
 							}
 							answered++
 							lastReply = time.Now()
+							progress()
 							var i int
 							fmt.Sscanf(m.Subject[len(inbox)+1:], "%d", &i)
 							if reads {
